@@ -78,6 +78,22 @@ def chk_kron(c):
             _close(kronecker.apply_kronecker(ops, x), D.dot(x), 'apply_kronecker on a %s' % nm)
 
 
+def chk_modek(c):
+    """modek_tprod(B, k, X): mode-k product with a dense / sparse / abstract operator B (rectangular), every mode of tensors with 1-4 axes:
+    Y[i_1..m..i_N] = sum_j B[m, j] X[i_1..j..i_N] (explicit loops over the mode via einsum on the dense matrix)"""
+    from pyiga import tensor
+    rng = np.random.RandomState(c['seed'])
+    shp = tuple(c['shape'])
+    X = rng.randint(-3, 4, size=shp).astype(float)
+    for k in range(len(shp)):
+        M = _mat(rng, c['m'], shp[k])
+        B = _as_kind(M, c['kind'])
+        got = np.asarray(tensor.modek_tprod(B, k, X))
+        want = np.moveaxis(np.tensordot(M, X, axes=(1, k)), 0, k)
+        assert got.shape == want.shape, 'modek_tprod(%s %r, k=%d, X%r): shape %r, expected %r' % (c['kind'], M.shape, k, shp, got.shape, want.shape)
+        _close(got, want, 'modek_tprod(%s %r, k=%d, X%r)' % (c['kind'], M.shape, k, shp))
+
+
 def chk_tprod(c):
     from pyiga import tensor
     import scipy.sparse
@@ -245,7 +261,7 @@ def chk_csr(c):
     _close(Q.dot(x), A[rows].dot(x) if len(rows) else np.zeros(0), 'CSRRowSubset%r' % (rows,))
 
 
-CHECKS = {'kron': chk_kron, 'tprod': chk_tprod, 'block': chk_block, 'blockdiag': chk_blockdiag, 'simple': chk_simple, 'subspace': chk_subspace,
+CHECKS = {'modek': chk_modek, 'kron': chk_kron, 'tprod': chk_tprod, 'block': chk_block, 'blockdiag': chk_blockdiag, 'simple': chk_simple, 'subspace': chk_subspace,
           'solver': chk_solver, 'kronsolver': chk_kronsolver, 'fastdiag': chk_fastdiag, 'csr': chk_csr}
 
 
@@ -270,6 +286,10 @@ def generate(tier, rng):
             else:
                 ks = [kinds[rng.randint(0, 2)] for _ in range(nf)]
             yield 'kron', {'seed': seed, 'shapes': shapes, 'kinds': ks}
+    for j, shp in enumerate(([3], [2, 3], [2, 3, 4], [3, 3, 3], [2, 3, 2, 3], [4, 2, 3], [2, 2, 2, 2])):
+        for kind in kinds:
+            seed += 1
+            yield 'modek', {'seed': seed, 'shape': shp, 'kind': kind, 'm': 1 + (j + len(kind)) % 4}
     # rectangular factors whose product is square (the dispatch must look at every factor, not at the overall shape), all kinds of factors
     for shapes in ([[2, 3], [3, 2]], [[4, 2], [1, 2]], [[2, 3], [3, 1], [2, 4]], [[3, 3], [2, 5], [5, 2]], [[1, 4], [4, 1]], [[2, 1], [1, 2], [3, 3]]):
         for ks in (['sparse'] * len(shapes), ['linop'] * len(shapes), [kinds[(k + 1) % 3] for k in range(len(shapes))], [kinds[(2 * k) % 3] for k in range(len(shapes))]):
